@@ -61,6 +61,14 @@ fn run(args: &[String], tier: &str) -> i32 {
         "C03" => c03::run(tier),
         "C04" => c04::run(tier),
         "C05" => c05::run(tier),
+        "c06-race" => {
+            common::quiet_panics();
+            let v = common::kf::Verdicts::load("C06");
+            let n: usize = args.get(2).and_then(|x| x.parse().ok()).unwrap_or(50);
+            let (a, b) = c06::snapshot_race(&v, n);
+            println!("c06-race: {} rounds, {} overlapped, {} violations", a, b, v.violation_count());
+            v.finish("race")
+        }
         "c05-race" => {
             // only the free-running part of C05 (debugging aid): nunverif c05-race <attempts>
             common::quiet_panics();
